@@ -27,7 +27,7 @@ ASSUMPTIONS = [
 ]
 KINDS = ["inst", "operand", "operand", "genreg", "genreg", "indreg", "stackreg", "basereg"]
 MUTATORS = ["none", "none", "none", "prefix-ext", "prefix-ext", "other-member", "wrong-width", "non-member", "swap-names", "last-operand", "unrelated-op", "def-empty", "def-non-member", "def-wrong-width", "case-variant"]
-FLOORS = {"kind=inst": 0.08, "kind=operand": 0.12, "kind=regfam": 0.16, "mut=prefix-ext": 0.06, "expect=found": 0.25, "near-miss": 0.3, "kind=deref-field": 0.06, "kind=deref-operator-capture": 0.04, "kind=many-names": 0.01, "kind=names-differ-in-case-only": 0.08, "deref-keys=permuted": 0.04}
+FLOORS = {"kind=inst": 0.08, "kind=operand": 0.12, "kind=regfam": 0.16, "mut=prefix-ext": 0.06, "expect=found": 0.25, "near-miss": 0.3, "kind=deref-field": 0.06, "kind=deref-operator-capture": 0.04, "deref-operator-capture=register-family": 0.01, "kind=many-names": 0.01, "kind=names-differ-in-case-only": 0.08, "deref-keys=permuted": 0.04}
 
 # operands with prefix / extension relatives (att, norm)
 RELATED = [
@@ -551,6 +551,14 @@ def deref_operator_capture_cases(draw):
     $deref field written in list form (main_reg: [ {$or: ["&r", "%rbp"]} ], the shape of tests/yamls/logic_operators_inside_deref.yaml):
     the memory operand is accepted exactly when its base is the bound text (or, for $or, the literal alternative)."""
     pushed = draw(st.sampled_from(DO_REGS))
+    # a third of the cases: a register-family capture instead of a plain one (defined by a 64-bit register, so that the later
+    # occurrence - with or without its .64 suffix - stands for the same text)
+    regfam = draw(st.integers(0, 2)) == 0
+    cap, cap_later = "&r", "&r"
+    if regfam:
+        fam, pushed = draw(st.sampled_from([("&genreg", "%rbx"), ("&genreg", "%rax"), ("&genreg", "%rcx"), ("&indreg", "%rsi"), ("&genreg-y", "%rbx")]))
+        cap = fam
+        cap_later = fam + draw(st.sampled_from(["", ".64"]))
     lit = draw(st.sampled_from([r for r in ["%rbp", "%rdi", "%r10"] if r != pushed]))
     op = draw(st.sampled_from(["$or", "$or", "$or", "$and", "$and_any_order"]))
     how = draw(st.sampled_from(["bound", "bound", "literal", "other", "extension"]))
@@ -558,9 +566,9 @@ def deref_operator_capture_cases(draw):
     off = draw(st.sampled_from(["0x8", "0x10", None, "-0x8"]))
     off_shown = off if draw(st.integers(0, 4)) else draw(st.sampled_from([o for o in ["0x8", "0x18", None] if o != off]))
     lit_spelled = lit if draw(st.booleans()) else lit[1:]
-    alts = ["&r", lit_spelled] if op == "$or" else ["&r"]
+    alts = [cap_later, lit_spelled] if op == "$or" else [cap_later]
     if op == "$or" and draw(st.booleans()):
-        alts = [lit_spelled, "&r"]
+        alts = [lit_spelled, cap_later]
     if op == "$or" and draw(st.integers(0, 2)) == 0:
         alts.insert(draw(st.integers(0, len(alts))), "%r15")
     fields = {"main_reg": [{op: alts}]}
@@ -573,13 +581,13 @@ def deref_operator_capture_cases(draw):
     other = draw(st.sampled_from(["%rax", "%r10", "%edx"]))
     pos = draw(st.integers(0, 1))
     d = {"$deref": fields}
-    pattern = [{m0: ["&r"]}, {m1: [d, other] if pos == 0 else [other, d]}]
+    pattern = [{m0: [cap]}, {m1: [d, other] if pos == 0 else [other, d]}]
     mem_att = f"{off_shown or ''}({base})"
     mem_norm = f"[{base}+{off_shown}]" if off_shown else f"[{base}]"  # stream normal form keeps "+-0x8" for a negative offset
     third = None
     if draw(st.integers(0, 2)) == 0:
         third = pushed if draw(st.booleans()) else draw(st.sampled_from(DO_REGS))
-        pattern.append({"xchg": ["&r"]})
+        pattern.append({"xchg": [cap_later]})
     L = []
     a = 0x401000
     for _ in range(draw(st.integers(0, 2))):
@@ -592,7 +600,7 @@ def deref_operator_capture_cases(draw):
     ok = (base == pushed or (op == "$or" and base == lit)) and off_shown == off and (third is None or third == pushed)
     i = next(k for k, rec in enumerate(L) if rec[1] == m0)
     spans = {i: [i + len(pattern)]} if ok else {}
-    return {"form": "deref-operator-capture", "how": how, "op": op, "pattern": pattern, "listing": L, "spans": spans, "near": how != "bound" or off_shown != off or (third not in (None, pushed))}
+    return {"form": "deref-operator-capture", "how": how, "op": op, "regfam": regfam, "pattern": pattern, "listing": L, "spans": spans, "near": how != "bound" or off_shown != off or (third not in (None, pushed))}
 
 
 @st.composite
@@ -648,6 +656,8 @@ def evaluate(case):
         spans = {int(k): set(v) for k, v in case["spans"].items()}
         exp, _, _ = compare(ev, pattern, L, None, None, spans=spans)
         ev.tags = ["kind=deref-operator-capture", f"how={case['how']}", f"dop={case['op']}", "expect=found" if exp else "expect=notfound"] + (["near-miss"] if case["near"] else [])
+        if case.get("regfam"):
+            ev.tags.append("deref-operator-capture=register-family")
         ev.nontrivial = True
         ev.sample = {"pattern": pattern, "stream": stream_sample(L), "expected_found": exp}
         return ev
